@@ -181,6 +181,34 @@ CHECKS = {
              "against a sequential model under ASan.",
         note="trusted: sufficiency of the instrumented points (checked by the TSan pass, not assumed); weak memory orderings are not modelled; more than 3 threads only in the TSan pass",
         design="DESIGN.md section 4, C14"),
+    "C16": dict(
+        engine="E2 hist",
+        technique="explicit-state search over process-wide event histories (grants, loads, contexts, compiles) replayed on the real library in a fresh process per history, compared with a permission model",
+        text="The module registry and the grant list are process-wide while trust is per context, so every history runs in a process of its own. Events: host "
+             "grants vmod / vmod2, clears the grants, clones the untrusted context; a trusted context imports and constructs; the untrusted context and its "
+             "clone import by name, import by path, include a file, construct at top level / inside a function body / by copy constructor / with another "
+             "spelling, declare a typed variable or parameter, call a method on a typed null, compile a constructor now and run it after later events, "
+             "call a function compiled earlier, and run the original's program through execute2. All histories of length <=3 (quick) / <=4 (thorough), "
+             "then breadth-first over model-distinct states to depth 6 / 8. Oracle: the constructor compiles in an untrusted context iff the module is "
+             "loaded and granted at that moment; import by path and include are refused there; the trusted context is never refused; and the "
+             "verification module's creation log shows no object created by code compiled without a grant.",
+        note="trusted: the permission model; vmod (harness/vmod.cpp) stands for any module",
+        design="DESIGN.md section 4, C16"),
+    "C17": dict(
+        engine="E2 hist",
+        technique="explicit-state breadth-first search over statement histories on the real interpreter with an instrumented module, each state checked against a reference-count model from the module's create/destroy/method event log",
+        text="harness/vmod.cpp (built as vmod and vmod2) gives every object its own heap block (guarded by ASan), an id and an event log. Breadth-first search "
+             "to depth 4 (quick) / 6 (thorough) over 27 statements - construct, b = a, overwrite, store in table / tuple, delete, concat, pass to a "
+             "function, return from a function, temporaries, chained self(), a method returning another object, copy constructor, INOUT argument, "
+             "construction in a loop / in a block that raises / in a failing argument list, forall over a table of objects, a method creating an object, "
+             "a callee keeping a reference, a five-argument method - and host events purge working memory, clone, free clone; states are deduplicated by "
+             "the model's canonical holder map; every history runs in its own process and ends by releasing every context. In every state: no object "
+             "with a live holder has been destroyed, every method event is on a live object of the defining module with exactly the supplied arguments, "
+             "copies of references create no object, the variables and table hold the objects the model predicts, and after release every created object "
+             "has exactly one destroy event. Ten programs offer a vmod2 object where vmod was compiled; no method or constructor of one module may run "
+             "on an object of the other.",
+        note="trusted: the holder model; late destruction (before release) is allowed by the property and not flagged",
+        design="DESIGN.md section 4, C17"),
 }
 
 NOT_YET = {}
